@@ -150,6 +150,11 @@ class Gen:
         reqs = [{"kind": pool[i % len(pool)], "client": False} for i in range(n_req)]
         corr0 = self.pick_corr0()
         frames = self.ideal_stream(reqs, corr0)
+        if n_req == 1:      # keep the exhaustive family small: shortest catalogued body
+            k = pool[0]
+            b = min((bytes.fromhex(x) for x in self.cat[k]["bodies"]), key=len)
+            frames = [{"bytes": self.frame(k, frames[0]["corr"], body=b, tags=b"\x00" if self.cat[k]["flex"] else b""),
+                       "for": 0, "corr": frames[0]["corr"]}]
         stream = b"".join(f["bytes"] for f in frames)
         n = len(stream)
         for k in range(0, maxchunks):
@@ -458,16 +463,19 @@ def gen_scenarios(ck: Check, cat):
         g.fam_all_splits(1, 4, [lpr], "all-splits-flex2")
         g.fam_all_splits(1, 4, [idx[("FindCoordinator", 0)]], "all-splits-1req")
         g.fam_all_splits(2, 3, [dr2, idx[("Heartbeat", 1)]], "all-splits-mixed")
-    g.fam_cut_everywhere(ck.n(4, 40))
+    g.fam_cut_everywhere(ck.n(3, 40))
     g.fam_timeouts(ck.n(25, 400))
-    g.fam_random(ck.n(1500, 40000))
+    g.fam_random(ck.n(1000, 40000))
     return g.scenarios
 
 
 # ------------------------------------------------------------------------------ model trace
-def model_events(sc, cat):
+def model_events(sc, cat, streams=None):
     out = []
     clients = []
+    stream = bytes.fromhex(sc["meta"].get("stream", "")) if streams is not None else b""
+    sname = None
+    off = 0
     for e in sc["events"]:
         k = e[0]
         if k == "send":
@@ -480,7 +488,14 @@ def model_events(sc, cat):
         elif k == "send_noresp":
             out.append("SendNoResp")
         elif k == "feed":
-            out.append(f'Feed (hx "{e[1]}")')
+            chunk = bytes.fromhex(e[1])
+            if streams is not None and len(chunk) >= 1 and stream[off:off + len(chunk)] == chunk:
+                if sname is None:
+                    sname = streams.setdefault(stream.hex(), f"st{len(streams)}")
+                out.append(f"Feed (sl {sname} {off} {off + len(chunk)})")
+                off += len(chunk)
+            else:
+                out.append(f'Feed (hx "{e[1]}")')
         elif k == "timeout":
             out.append(f"Timeout {e[1]}%nat {'true' if clients[e[1]] else 'false'}")
         elif k == "cancel":
@@ -499,12 +514,33 @@ CODE = {2: ["CorrErr"], 3: ["TimedOut"], 4: ["Cancelled"], 10: ["ConnErr", "none
         15: ["ConnErr", "noconn"]}
 
 
-def scenario_queries(sc):
-    """(kind, frame) pairs whose body-decodability the model may ask for"""
+def scenario_queries(sc, cat):
+    """(kind, frame) pairs whose body-decodability the model may ask for: the head of the queue is
+    asked to decode a body only when the frame's correlation id is its own (or 0 for a quirk
+    waiter), so only those pairs are needed (a miss answers false and would surface as a
+    disagreement)"""
     stream = b"".join(bytes.fromhex(e[1]) for e in sc["events"] if e[0] == "feed")
     frames, _ = split_frames(stream)
-    kinds = sorted({r["kind"] for r in sc["reqs"] if r["kind"] is not None})
-    return [(k, f.hex()) for f in frames for k in kinds]
+    # correlation ids as send() assigns them while the connection is open
+    corr = sc["corr0"]
+    want = []
+    for e in sc["events"]:
+        if e[0] == "send_noresp":
+            corr = (corr + 1) % M31
+        elif e[0] == "send":
+            corr = (corr + 1) % M31
+            want.append((e[1], corr))
+    out = []
+    seen = set()
+    for f in frames:
+        if len(f) < 4:
+            continue
+        (rc,) = struct.unpack(">i", f[:4])
+        for kind, c in want:
+            if (rc == c or (cat[kind]["quirk"] and rc == 0)) and (kind, f) not in seen:
+                seen.add((kind, f))
+                out.append((kind, f.hex()))
+    return out
 
 
 def expected_from_model(sc, mv, oracle):
@@ -618,10 +654,10 @@ def public(sc):
             "meta": {k: v for k, v in sc["meta"].items() if k not in ("stream",)}}
 
 
-def run_real(ck, scenarios, nshards=16):
+def run_real(ck, scenarios, cat, nshards=16):
     import concurrent.futures as cf
     parts = [scenarios[k::nshards] for k in range(nshards)]
-    queries = [sorted({q for sc in p for q in scenario_queries(sc)}) for p in parts]
+    queries = [sorted({q for sc in p for q in scenario_queries(sc, cat)}) for p in parts]
 
     def one(k):
         if not parts[k]:
@@ -648,12 +684,16 @@ def run_model(ck, scenarios, oracle, cat, label="cases", nshards=32):
     for s in range(nshards):
         part = list(range(s, len(scenarios), nshards))
         tabs = {}
+        streams = {}
         lines = []
         for i in part:
             sc = scenarios[i]
+            ev_txt = model_events(sc, cat, streams)
+            stream = bytes.fromhex(sc["meta"].get("stream", ""))
+            sname = streams.get(stream.hex())
             ents = []
             seen = set()
-            for q in scenario_queries(sc):
+            for q in scenario_queries(sc, cat):
                 o = oracle.get(q)
                 if o is None or o[1] is None:
                     continue
@@ -661,12 +701,22 @@ def run_model(ck, scenarios, oracle, cat, label="cases", nshards=32):
                 if key in seen:
                     continue
                 seen.add(key)
-                ents.append(f'({o[0]}, hx "{o[1]}", {"true" if o[2] else "false"})')
+                frame = bytes.fromhex(q[1])
+                blen = len(o[1]) // 2
+                pos = stream.find(struct.pack(">i", len(frame)) + frame) if sname else -1
+                if pos >= 0 and blen:
+                    end = pos + 4 + len(frame)
+                    btxt = f"sl {sname} {end - blen} {end}"
+                else:
+                    btxt = f'hx "{o[1]}"'
+                ents.append(f'({o[0]}, {btxt}, {"true" if o[2] else "false"})')
             t = "[" + "; ".join(ents) + "]"
             if t not in tabs:
                 tabs[t] = f"t{len(tabs)}"
-            lines.append(f"({tabs[t]}, {sc['corr0']}, {model_events(sc, cat)})")
+            lines.append(f"({tabs[t]}, {sc['corr0']}, {ev_txt})")
         body = "Import Oracle.\n"
+        for st, name in streams.items():
+            body += f'Definition {name} : bytes := hx "{st}".\n'
         for t, name in tabs.items():
             body += f"Definition {name} : list (Z * bytes * bool) := {t}.\n"
         body += "Definition scs := [" + ";\n ".join(lines) + "].\n"
@@ -691,7 +741,7 @@ def run_model(ck, scenarios, oracle, cat, label="cases", nshards=32):
 def evaluate(ck, scenarios, cat, label="cases"):
     import time
     t0 = time.time()
-    res, oracle = run_real(ck, scenarios)
+    res, oracle = run_real(ck, scenarios, cat)
     t1 = time.time()
     model, err = run_model(ck, scenarios, oracle, cat, label)
     ck.extra["timing_s"] = {"real": round(t1 - t0, 1), "model": round(time.time() - t1, 1)}
@@ -801,7 +851,7 @@ def replay(ck: Check, path):
     sc = rp["scenario"]
     sc.setdefault("meta", {}).setdefault("family", "replay")
     cat = run_impl("c12_impl.py", {"mode": "catalog", "kinds": KINDS, "seed": ck.seed, "bodies": 8})["kinds"]
-    res, oracle = run_real(ck, [sc], nshards=1)
+    res, oracle = run_real(ck, [sc], cat, nshards=1)
     print(json.dumps({"scenario": sc, "real": res[0]}, indent=1)[:6000])
     for clause, msg, sig in monitor(sc, res[0], oracle, cat):
         print(f"REPRODUCED {clause}: {msg}")
